@@ -1327,6 +1327,7 @@ class BaseImage(metaclass=ImageMeta):
         image_it._animator = image_it._animate(img, alpha, fmt, style_args)
         cursor_up = CURSOR_UP % (lines - 1) if lines > 1 else ""
         cursor_down = CURSOR_DOWN % lines
+        interrupted = True
 
         try:
             print(next(image_it._animator), end="", flush=True)  # First frame
@@ -1345,6 +1346,8 @@ class BaseImage(metaclass=ImageMeta):
 
                 # Render next frame during current frame's duration
                 start = time.time()
+
+            interrupted = False
         except KeyboardInterrupt:
             self._handle_interrupted_draw()
         except Exception:
@@ -1355,8 +1358,10 @@ class BaseImage(metaclass=ImageMeta):
             self._close_image(img)
             self._seek_position = prev_seek_pos
             # Move the cursor to the last line of the image to prevent "overlaid"
-            # output in the terminal
-            print(cursor_down, end="")
+            # output in the terminal, if drawing was interrupted midway.
+            # Otherwise, the cursor is already on the last line.
+            if interrupted:
+                print(cursor_down, end="")
 
     def _format_render(
         self,
